@@ -83,12 +83,18 @@ def workdir(name):
     return d
 
 
-def tlc(d, module, cfg, extra=(), workers=None, timeout=900, javaopts=None):
-    """run TLC in scratch dir d; returns (rc, stdout, seconds)"""
+TLA_CP = "/opt/veriftools/tla/tla2tools.jar:/opt/veriftools/tla/CommunityModules-deps.jar"
+
+
+def tlc(d, module, cfg, extra=(), workers=None, timeout=900, javaopts=None, heap=None):
+    """run TLC in scratch dir d; returns (rc, stdout, seconds). The JVM heap is capped explicitly (the stock
+    wrapper lets every JVM grow to 25% of RAM, and a check runs several TLC processes side by side)."""
     env = dict(os.environ)
     if javaopts:
         env["JAVA_TOOL_OPTIONS"] = javaopts
-    cmd = ["tlc", "-workers", str(workers or "auto"), "-metadir", os.path.join(d, "meta_" + cfg.replace(".cfg", "")),
+    heap = heap or os.environ.get("VERIF_TLC_HEAP") or ("4g" if str(workers) == "1" else "8g")
+    cmd = ["java", "-XX:+UseParallelGC", "-Xmx" + heap, "-Xss64m", "-cp", TLA_CP, "tlc2.TLC",
+           "-workers", str(workers or "auto"), "-metadir", os.path.join(d, "meta_" + cfg.replace(".cfg", "")),
            "-config", cfg] + list(extra) + [module]
     rc, out, dt = sh(cmd, cwd=d, env=env, timeout=timeout, check=False)
     return rc, out, dt
